@@ -28,6 +28,7 @@ ASSUMPTIONS = [
 ]
 EXHAUSTIVE = {'quick': False, 'thorough': False}
 PYOPT_KINDS = ('valid',)
+CLOCALE_KINDS = ('valid',)
 KNOWN_KEYS = {'paren-prefix-suffix', 'no-final-newline-indexerror', 'silent-truncation', 'empty-program-indexerror'}
 
 
